@@ -96,6 +96,8 @@ def history(rng, tier, refs=False, reads=False, flavour="c10"):
                        (2 if reads else 0, "read"), (1, "diff"), (1, "merge-plain"), (1, "new")])
         r = rng.pick(live)
         pol = rng.pick([[], [], [opt("Append")], [opt("Prepend")], [opt("Replace")], [opt("ReplaceArr")]])
+        if refs and rng.chance(0.35):
+            pol = pol + [{"o": "MetaData", "v": rng.pick(["overlay.yml", "b.json"])}]    # parts of a config from different sources
         names = [".".join(p) for p in paths_of(shapes.get(r))] or ["a"]
         if k == "new":
             new_plain(rng.below(NREGS))
